@@ -88,27 +88,29 @@ Proof.
 Qed.
 Print Assumptions C02_inv_bloom_complete.
 
-(** A completed Put is never reported missing.  In every reachable state of the
-    repaired model ([d_toctou = false]: hasCached reads the active flag and the
-    filter atomically), for a key that is stored and has no Put / writer still
-    in flight: the Bloom layer does not short-circuit a lookup (it forwards it),
-    and the 2Q layer either goes to the store or answers "found".  (The third
-    way to answer, the store itself, holds the key by assumption.) *)
+(** A completed Put is never reported missing.  In every reachable state (any
+    flags), for a key that is stored and has no Put / writer still in flight:
+    - the repaired hasCached (filter loaded first, [active] read afterwards,
+      negative answer trusted only if the same filter is still live afterwards;
+      the program counter [BTest] exists only with [d_toctou = false]) does not
+      short-circuit the lookup at the moment it tests the loaded filter: it
+      forwards it to the inner layers;
+    - the 2Q layer either goes to the store or answers "found".
+    (The third way to answer, the store itself, holds the key by assumption.) *)
 Theorem C02_put_never_missing :
   forall cf fl pos sz keys bn bc progs (ls : list label) s t s' k,
-    d_toctou fl = false ->
     lrun cf fl pos sz (cinit cf keys bn bc progs) ls = Some s ->
     mem k (g_store (g_sh s)) = true ->
     tstep cf fl pos sz s t = Some s' ->
-    (forall a, c_bloom cf = true -> pcof s t = BActive a k -> ~ put_in_flight s k ->
-               pcof s' t = enter_inner cf a k) /\
+    (forall a g, c_bloom cf = true -> pcof s t = BTest a k g -> ~ put_in_flight s k ->
+                 pcof s' t = enter_inner cf a k) /\
     (forall rk, c_tq cf = true -> pcof s t = TQuery (SKRead rk) k -> ~ writer_in_flight s k ->
                 pcof s' t = TLock (SKRead rk) k \/
                 t_res (tget s' t) = found_res sz rk k :: t_res (tget s t)).
 Proof.
-  intros cf fl pos sz keys bn bc progs ls s t s' k Htoc Hr Hm Hstep. split.
-  - intros a Hbl Hpc Hnf.
-    apply (never_missing_bloom cf fl pos sz s t s' a k Htoc Hbl
+  intros cf fl pos sz keys bn bc progs ls s t s' k Hr Hm Hstep. split.
+  - intros a g Hbl Hpc Hnf.
+    apply (never_missing_bloom cf fl pos sz s t s' a k g Hbl
              (bloom_reachable cf fl pos sz keys bn bc progs ls s Hbl Hr) Hpc Hm Hnf Hstep).
   - intros rk Htq Hpc Hnw.
     apply (never_missing_cache cf fl pos sz s t s' rk k Htq
@@ -136,7 +138,7 @@ Print Assumptions C02_activate_complete.
 
 (** * The code as it is today violates the property (findings C02-1, C02-2) *)
 
-(** C02-2: with hasCached's two separate reads there is a run in which key 0 is
+(** C02-2: with hasCached reading [active] before it loads the filter there is a run in which key 0 is
     stored from the start, no thread ever writes or deletes anything, and Has(0)
     answers false (a Rebuild deactivates and swaps between the two reads). *)
 Theorem C02_toctou_refuted :
@@ -152,26 +154,33 @@ Print Assumptions C02_toctou_refuted.
     that has not returned (thread 1 has no answer yet): not linearizable. *)
 Theorem C02_early_activate_refuted :
   exists ls s,
-    lrun cf_bloom (Build_flags false true) pos1 sz0
+    lrun cf_bloom (Build_flags true true) pos1 sz0
       (cinit cf_bloom [] 30 true [[OPut 0 false]; [ORead KHas 0; ORead KHas 0]]) ls = Some s /\
     t_res (tget s 2) = [RBool false; RBool true] /\ t_res (tget s 1) = [] /\
     g_active (g_sh s) = true /\ mem 0 (g_store (g_sh s)) = true /\ bsub (pos1 0) (g_filt (g_sh s)) = false.
 Proof. exists early_run. exact early_witness. Qed.
 Print Assumptions C02_early_activate_refuted.
 
-(** Non-vacuity: the same schedules in the repaired model — the reader of the
-    first run is not fooled, the second schedule is not executable (activation
-    is not enabled while the Put is in its window). *)
+(** Non-vacuity: the corresponding schedules in the repaired model.  The reader
+    that loaded the old filter and saw it active is not fooled by the swap (the
+    stale filter is not trusted, the store answers "true"); and with the Put in
+    its window the build reaches [RActivate] but the activation step is not
+    enabled. *)
 Example C02_toctou_fixed :
-  forall s,
+  exists s,
     lrun cf_bloom (Build_flags false false) pos1 sz0
-      (cinit cf_bloom [0] 30 true [[ORead KHas 0]; [ORebuild 30 true]]) toctou_run = Some s ->
-    t_res (tget s 1) <> [RBool false].
+      (cinit cf_bloom [0] 30 true [[ORead KHas 0]; [ORebuild 30 true]]) toctou_run_fixed = Some s /\
+    g_active (g_sh s) = false /\ g_filt (g_sh s) = 0%N /\ t_res (tget s 1) = [RBool true].
 Proof. exact toctou_fixed. Qed.
 
 Example C02_early_fixed :
   lrun cf_bloom (Build_flags false false) pos1 sz0
-    (cinit cf_bloom [] 30 true [[OPut 0 false]; [ORead KHas 0; ORead KHas 0]]) early_run = None.
+    (cinit cf_bloom [] 30 true [[OPut 0 false]; [ORead KHas 0; ORead KHas 0]]) early_run_fixed = None /\
+  exists s,
+    lrun cf_bloom (Build_flags false false) pos1 sz0
+      (cinit cf_bloom [] 30 true [[OPut 0 false]; [ORead KHas 0; ORead KHas 0]])
+      (removelast early_run_fixed) = Some s /\
+    pcof s 0 = RActivate /\ t_res (tget s 2) = [RBool true].
 Proof. exact early_fixed. Qed.
 
 (** Non-vacuity of the invariants' hypotheses: a reachable state with an active
@@ -180,7 +189,7 @@ Example C02_reachable_example :
   exists s,
     lrun (Build_cfg true true) (Build_flags false false) pos1 sz0
       (cinit (Build_cfg true true) [1] 30 true [[OPut 0 false; ORead KHas 0]])
-      (repeat (LThread 0) 7 ++ repeat (LThread 1) 9 ++ repeat (LThread 1) 3) = Some s /\
+      (repeat (LThread 0) 7 ++ repeat (LThread 1) 9 ++ repeat (LThread 1) 5) = Some s /\
     g_active (g_sh s) = true /\ mem 0 (g_store (g_sh s)) = true /\
     lookup 0 (g_cache (g_sh s)) = Some (CSize 0) /\ t_res (tget s 1) = [RBool true; ROk].
 Proof. eexists. vm_compute. repeat split. Qed.
